@@ -7,6 +7,7 @@ import PdshVerif.Pcp.PacedTree
 import PdshVerif.Pcp.Refused
 import PdshVerif.Pcp.Mixed
 import PdshVerif.Pcp.MeetsSpec
+import PdshVerif.Pcp.Overwrite
 
 /-! # C11  pdcp/rpdcp reproduce the source tree exactly on every target
 
@@ -26,6 +27,10 @@ write faults (`o.fsize = none`).  Times are in microseconds, the resolution of t
 * `copy_meets_spec`  -- model refines spec: the file system `copy_roundtrip` describes passes `Spec.checkKids` -- the very
                         function the check's oracle evaluates on the real destination -- without a discrepancy (names,
                         structure, bytes; with -p modes and microsecond times), for the pair as repaired.
+* `existing_file_replaced`
+                     -- a regular file that already exists on the target, with any old contents, holds exactly the
+                        bytes sent afterwards (the `ftruncate` step: new size 0, a block multiple, old file barely or
+                        much longer); old mode kept, or with -p the mode sent; nothing else changes.
 * `file_any_size`    -- the single-file case spelled out at the byte level: record + data + NUL, any
                         length (0, 1, ..., beyond several BUFSIZ blocks: `foldl_data` = blocks_concat).
 * `received_file`, `preserve_meta_file`
@@ -199,6 +204,25 @@ theorem file_any_size (o : Opts) (hc : CntOk o) (hnf : o.fsize = none) (st : St)
   have hfit : o.fitsB d.length = true := by simp [Opts.fitsB, hnf]
   rw [feed_C hc hat.phase hat.stack hat.isdir hat.res hat.dir hn hfresh hlen m d hsz hfit hat.us]
   simp [hns, set_self, recvFile]
+
+/-- **An existing regular file is replaced, not patched** (`feed_C_over`).  At a record boundary in a directory,
+the name `n` being taken by a regular file with ANY old contents `od` (shorter, one byte longer, blocks longer),
+`C<mode> <size> <name>\n` + the bytes + NUL leave exactly those bytes in it -- the final `ftruncate(ofd, size)`
+cuts the old tail off, for every new size including 0 and the multiples of the transfer block --, with the old mode
+or, with -p, the mode sent; nothing else changes (the parent directory is not even re-timed), two
+acknowledgements. -/
+theorem existing_file_replaced (o : Opts) (hc : CntOk o) (hnf : o.fsize = none) (st : St) (f : Frame)
+    (rest : List Frame) (q : Path) (hat : AtDir o st f rest q) (n : Str) (hn : GoodName n)
+    (om : Nat) (ot : Option Time) (od : Str) (hold : st.fs (q ++ [n]) = some (.file om ot od))
+    (hlen : f.targ.length + n.length + 1 < PCP_PATH_MAX) (m : Nat) (d : Str) (hsz : d.length < 2 ^ 63) :
+    let st' := (cRecord m d.length n ++ d ++ [0]).foldl (step o) st
+    st'.fs (q ++ [n]) = some (.file (overMode o om (m &&& RCP_MODEMASK)) (if f.setimes then some f.mt else none) d) ∧
+    (∀ x, x ≠ q ++ [n] → st'.fs x = st.fs x) ∧
+    st'.out = .ack :: .ack :: st.out ∧ st'.phase = .start := by
+  simp only
+  have hfit : o.fitsB d.length = true := by simp [Opts.fitsB, hnf]
+  rw [feed_C_over hc hat.phase hat.stack hat.isdir hat.res hat.dir hn hold hlen m d hsz hfit hat.us]
+  exact ⟨set_self _ _ _, fun x hx => set_other _ _ _ _ hx, rfl, rfl⟩
 
 /-! ## what arrives -/
 
@@ -991,5 +1015,11 @@ example :
         simp only [SItem.path, e103]
         decide)
   exact ⟨h.1, h.2.1⟩
+
+/-- `/w/d/f` holds three bytes; `C0600 1 f\nX\0` without -p leaves the one byte `X` and the old mode 0644 -/
+example :
+    (sink ro (fun p => if p = [[119], [100], [102]] then some (.file 0o644 none [90, 90, 90]) else xfs p)
+      [67, 48, 54, 48, 48, 32, 49, 32, 102, 10, 88, 0]).1 [[119], [100], [102]] = some (.file 0o644 none [88]) := by
+  decide +kernel
 
 end PdshVerif.Props.C11
